@@ -42,9 +42,20 @@ func TestPlan(t *testing.T) {
 		defer sfh.Close()
 		em.SW = bufio.NewWriterSize(sfh, 1<<20)
 	}
+	if wp := os.Getenv("VERIF_WIRE_OUT"); wp != "" {
+		wfh, err := os.OpenFile(wp, os.O_CREATE|os.O_WRONLY|os.O_APPEND, 0o644)
+		if err != nil {
+			t.Fatal(err)
+		}
+		defer wfh.Close()
+		em.WW = bufio.NewWriterSize(wfh, 1<<20)
+	}
 	for i := start; i < len(plan); i += step {
 		RunStream(em, i+1, &plan[i])
 		em.W.Flush()
+		if em.WW != nil {
+			em.WW.Flush()
+		}
 		if em.SW != nil {
 			em.SW.Flush()
 		}
